@@ -34,7 +34,7 @@ func baseIsLocalLiteral(p *core.Prog, fn *core.Func, s *core.Site) bool {
 		obj = p.Info.Defs[id]
 	}
 	found := false
-	ast.Inspect(fn.Decl.Body, func(n ast.Node) bool {
+	inspectFn(fn, func(n ast.Node) bool {
 		as, ok := n.(*ast.AssignStmt)
 		if !ok {
 			return true
@@ -88,9 +88,10 @@ func (c *Ctx) mergeModel() *handlerModel {
 		spec.recv = p.Info.Defs[target.Decl.Recv.List[0].Names[0]]
 	}
 	x := gea.New(p, target.Name, target.Decl.Type, target.Decl.Body, spec)
+	x.InlineCallee = c.inlinePolicy
 	x.DeclareVar("RS", stateDom)
 	// the range value variable is "r"
-	ast.Inspect(target.Decl.Body, func(n ast.Node) bool {
+	inspectFn(target, func(n ast.Node) bool {
 		if rs, ok := n.(*ast.RangeStmt); ok && rs.Value != nil {
 			if id, ok := rs.Value.(*ast.Ident); ok && core.NamedOf(p.TypeOf(id)) == "pushNodeState" {
 				x.SetAlias(p.Info.Defs[id], "r")
@@ -143,7 +144,7 @@ func checkMerge(c *Ctx, prop string) {
 	// every remote entry is delivered: one iteration of the merge loop, explored on its own
 	var body *ast.BlockStmt
 	var rangeVal *ast.Ident
-	ast.Inspect(m.fn.Decl.Body, func(n ast.Node) bool {
+	inspectFn(m.fn, func(n ast.Node) bool {
 		if rs, ok := n.(*ast.RangeStmt); ok && body == nil {
 			if id, ok := rs.Value.(*ast.Ident); ok && core.NamedOf(c.P.TypeOf(id)) == "pushNodeState" {
 				body, rangeVal = rs.Body, id
@@ -156,6 +157,7 @@ func checkMerge(c *Ctx, prop string) {
 	}
 	spec := &hSpec{c: c, kind: "mergeiter", fn: m.fn, recv: m.x.Spec.(*hSpec).recv}
 	ix := gea.New(c.P, m.fn.Name+"$iteration", m.fn.Decl.Type, body, spec)
+	ix.InlineCallee = c.inlinePolicy
 	ix.DeclareVar("RS", stateDom)
 	ix.SetAlias(c.P.Info.Defs[rangeVal], "r")
 	ix.Run()
